@@ -1746,7 +1746,7 @@ namespace awkward {
       }
     }
     else {
-      if (advanced.length() != lenstarts) {
+      if (advanced.length() < lenstarts) {
         throw std::invalid_argument(
           std::string("cannot fit the pairing of an earlier array index (length ")
           + std::to_string(advanced.length()) + std::string(") to this dimension (length ")
